@@ -173,9 +173,9 @@ def _restrict_rich(case):
 
 def cases(rng, tier):
     quick = tier == "quick"
-    n_mixed = 60 if quick else 700
-    n_focus = 3 if quick else 30
-    n_rich = 12 if quick else 150
+    n_mixed = 45 if quick else 700
+    n_focus = 2 if quick else 30
+    n_rich = 10 if quick else 150
     for _ in range(n_mixed):
         c = G.gen_case(rng, plain=1 if rng.random() < 0.85 else 0)
         c["props"] = 1
